@@ -46,7 +46,7 @@ func targets() []*tgt {
 	for k := range ms {
 		m, ph, k := ms[k], phms[k], k
 		ts = append(ts, &tgt{name: fmt.Sprintf("CT.M%d", k), entry: vmon.FuncCodePtr(m), call: func(a int) int { return m(&CT{v: 9}, a) }, orig: func(a int) int { return 9 + a*(k+2) + 100 + k },
-			handle: func(b *mocker.Builder) mocker.ExportedMocker { return b.Struct(&CT{}).Method(fmt.Sprintf("M%d", k)) },
+			handle: func(b *mocker.Builder) mocker.ExportedMocker { return ctContainer(b).Method(fmt.Sprintf("M%d", k)) },
 			cb:     func(v int) interface{} { return func(t *CT, a int) int { return v } },
 			ocb:    func() interface{} { return func(t *CT, a int) int { return (*ph)(t, a) | marker } },
 			ph:     ph, phAddr: vmon.FuncCodePtr(*ph)})
@@ -58,7 +58,7 @@ func targets() []*tgt {
 		m, ph, k := ums[k], phus[k], k
 		ts = append(ts, &tgt{name: fmt.Sprintf("CT.um%d", k), entry: vmon.FuncCodePtr(m), call: func(a int) int { return m(&CT{v: 9}, a) }, orig: func(a int) int { return 9 + a*(k+5) + 300 + k },
 			handle: func(b *mocker.Builder) mocker.ExportedMocker {
-				return b.Struct(&CT{}).ExportMethod(fmt.Sprintf("um%d", k)).As(func(t *CT, a int) int { return 0 })
+				return ctContainer(b).ExportMethod(fmt.Sprintf("um%d", k)).As(func(t *CT, a int) int { return 0 })
 			},
 			cb:  func(v int) interface{} { return func(t *CT, a int) int { return v } },
 			ocb: func() interface{} { return func(t *CT, a int) int { return (*ph)(t, a) | marker } },
@@ -101,6 +101,27 @@ func targets() []*tgt {
 		ocb: func() interface{} { return func(a int) int { return phf1(a) | marker } },
 		ph:  &phf1, phAddr: vmon.FuncCodePtr(phf1)})
 	return ts
+}
+
+// ctContainer: the user holds on to the container Struct(&CT{}) returned first - also across Reset - and works
+// through it every other time; the other times the builder is asked again (which also happens in between).
+var (
+	ctKept  = map[*mocker.Builder]*mocker.CachedMethodMocker{}
+	ctTurns = map[*mocker.Builder]int{}
+)
+
+func ctContainer(b *mocker.Builder) *mocker.CachedMethodMocker {
+	fresh := b.Struct(&CT{})
+	kept, ok := ctKept[b]
+	if !ok {
+		ctKept[b] = fresh
+		return fresh
+	}
+	ctTurns[b]++
+	if ctTurns[b]%2 == 0 {
+		return kept
+	}
+	return fresh
 }
 
 type neighbour struct {
